@@ -34,16 +34,48 @@ type c17serve struct {
 	passThru []c17leaf // origins that are the caller's own ResponseWriter
 }
 
+// isCreatedT: v is a compressing response writer where it comes into being (the constructor call, the literal), not a
+// name under which an existing one is handed on: the receiver or a parameter of a method / helper that serves with it
+// (`NewGzipResponseWriter(w, ct).serve(h, r)`), a captured variable, a phi, a load from a cell or a field.
+func (k *c17kit) isCreatedT(v ssa.Value) bool {
+	if !k.isT(v.Type()) {
+		return false
+	}
+	switch v.(type) {
+	case *ssa.Parameter, *ssa.FreeVar, *ssa.Phi, *ssa.UnOp, *ssa.Extract, *ssa.TypeAssert, *ssa.ChangeType, *ssa.Field:
+		return false
+	}
+	return true
+}
+
+// c17isServe: a call of ServeHTTP through an interface, or of the method value taken from one
+// (`serve := h.ServeHTTP; serve(w, r)`); the writer is the first argument either way.
+func c17isServe(cc *ssa.CallCommon) bool {
+	if len(cc.Args) != 2 || !c17respWriterIface(cc.Args[0].Type()) {
+		return false
+	}
+	if cc.IsInvoke() {
+		return cc.Method.Name() == "ServeHTTP"
+	}
+	fns := funcsOf(cc.Value)
+	for _, fn := range fns {
+		if !strings.HasPrefix(fn.Synthetic, "bound method wrapper") || fn.Object() == nil || fn.Object().Name() != "ServeHTTP" {
+			return false
+		}
+	}
+	return len(fns) > 0
+}
+
 // serveSites: the calls of http.Handler.ServeHTTP in the package, with the origins of the writer they pass.
 func (k *c17kit) serveSites() []c17serve {
 	var out []c17serve
 	eachInstrOf(k.fns, func(_ *ssa.Function, i ssa.Instruction) {
 		cc := callCommon(i)
-		if cc == nil || !cc.IsInvoke() || cc.Method.Name() != "ServeHTTP" || len(cc.Args) != 2 {
+		if cc == nil || !c17isServe(cc) {
 			return
 		}
 		s := c17serve{i: i}
-		for _, l := range k.origins(cc.Args[0], func(v ssa.Value) bool { return k.isT(v.Type()) }) {
+		for _, l := range k.origins(cc.Args[0], k.isCreatedT) {
 			switch {
 			case k.isT(l.v.Type()):
 				s.created = append(s.created, l)
@@ -85,11 +117,15 @@ func runC17D1(c *Ctx, k *c17kit) {
 	nInst := 0
 	eachInstrOf(k.fns, func(f *ssa.Function, i ssa.Instruction) {
 		st, ok := i.(*ssa.Store)
-		if !ok || !k.isW(st.Addr) {
+		if !ok || (!k.sel && !k.isW(st.Addr)) || (k.sel && !k.isInstall(i)) {
 			return
 		}
 		key := fnKey(f)
-		for _, l := range k.origins(st.Val, k.isGzipValue) {
+		ls := k.origins(st.Val, k.isGzipValue)
+		if k.sel {
+			ls = []c17leaf{{st.Val, st.Block()}} // the store into the gzip-writer field IS the decision to compress
+		}
+		for _, l := range ls {
 			if !k.isGzipValue(l.v) {
 				continue
 			}
@@ -142,12 +178,12 @@ func c17headerMutation(i ssa.Instruction) (op, key string, ok bool) {
 			return m, k, true
 		}
 	}
-	if mu, isMU := i.(*ssa.MapUpdate); isMU && typeStr(mu.Map.Type()) == "net/http.Header" {
+	if mu, isMU := i.(*ssa.MapUpdate); isMU && c17typeStr(mu.Map.Type()) == "net/http.Header" {
 		if k, isK := constString(mu.Key); isK {
 			return "map assignment", k, true
 		}
 	}
-	if cc := callCommon(i); cc != nil && calleeName(cc) == "builtin.delete" && len(cc.Args) == 2 && typeStr(cc.Args[0].Type()) == "net/http.Header" {
+	if cc := callCommon(i); cc != nil && calleeName(cc) == "builtin.delete" && len(cc.Args) == 2 && c17typeStr(cc.Args[0].Type()) == "net/http.Header" {
 		if k, isK := constString(cc.Args[1]); isK {
 			return "delete", k, true
 		}
@@ -177,7 +213,7 @@ func runC17H1(c *Ctx, k *c17kit) {
 					continue // the implicit 200 of a Write without WriteHeader, chosen in Write itself
 				}
 				p, isP := l.v.(*ssa.Parameter)
-				if !isP || typeStr(p.Type()) != "int" || p.Parent() != k.wh {
+				if !isP || c17typeStr(p.Type()) != "int" || p.Parent() != k.wh {
 					ok = false
 				}
 			}
@@ -227,43 +263,6 @@ func c17edgeFact(p *ssa.BasicBlock, succIdx int) (Fact, bool) {
 	return Fact{cond, truth}, true
 }
 
-// ---- decision flags -----------------------------------------------------------------------------------------------
-//
-// "Undecided" is the nil-ness of the decided-writer field; a restructuring may keep it in an explicit boolean next to
-// it (`decided bool`, tested as `if !grw.decided`). Such a field counts as a decision flag when the package only ever
-// stores `true` into it and every such store is tied to a decision: on every path through the function that sets the
-// flag the writer field is assigned as well (before or after). Then flag == true implies writer != nil once the
-// method has returned, and the rules accept a flag fact wherever they accept a nil fact.
-
-func (k *c17kit) decisionFlags() map[c17fkey]bool {
-	if k.flags != nil {
-		return k.flags
-	}
-	k.flags = map[c17fkey]bool{} // (empty while it is computed: the checks below do not consult flags)
-	out := map[c17fkey]bool{}
-	for fk, sts := range k.stores {
-		if b, ok := fk.typ().Underlying().(*types.Basic); !ok || b.Kind() != types.Bool {
-			continue
-		}
-		valid := len(sts) > 0
-		for _, st := range sts {
-			if bv, isK := constBool(st.Val); !isK || !bv {
-				valid = false
-				break
-			}
-			if !k.tiedTo(st, k.decides) {
-				valid = false
-				break
-			}
-		}
-		if valid {
-			out[fk] = true
-		}
-	}
-	k.flags = out
-	return out
-}
-
 // decides: i assigns the decided writer, or calls a function of the region that does so on all of its paths.
 func (k *c17kit) decides(i ssa.Instruction) bool {
 	if k.isDecidingStore(i) {
@@ -290,24 +289,6 @@ func (k *c17kit) tiedTo(i ssa.Instruction, pred func(ssa.Instruction) bool) bool
 	return !open
 }
 
-// flagFact: the fact is about a decision flag; returns whether it says "decided".
-func (k *c17kit) flagFact(f Fact) (decided bool, ok bool) {
-	fk := k.fkey(f.Cond)
-	if fk.n == nil || !k.decisionFlags()[fk] {
-		return false, false
-	}
-	return f.Truth, true
-}
-
-func (k *c17kit) isFlagSet(i ssa.Instruction) bool {
-	st, ok := i.(*ssa.Store)
-	if !ok {
-		return false
-	}
-	fk := k.fkey(st.Addr)
-	return fk.n != nil && k.decisionFlags()[fk]
-}
-
 // knownUndecided: at b the writer is known to be undecided: writer == nil, or a decision flag is false.
 func (k *c17kit) knownUndecided(b *ssa.BasicBlock) (byFlag bool, ok bool) {
 	if c17knownNil(b, k.isW) {
@@ -325,6 +306,9 @@ func (k *c17kit) knownDecided(b *ssa.BasicBlock) bool {
 }
 
 func (k *c17kit) isDecidingStore(i ssa.Instruction) bool {
+	if k.sel {
+		return k.isFlagSet(i)
+	}
 	st, ok := i.(*ssa.Store)
 	return ok && k.isW(st.Addr) && !isNilConst(st.Val)
 }
@@ -471,6 +455,10 @@ func (k *c17kit) freshlyRead(v ssa.Value, at *ssa.BasicBlock, depth int) bool {
 }
 
 func runC17T1(c *Ctx, k *c17kit) {
+	if k.sel {
+		runC17T1sel(c, k)
+		return
+	}
 	nStore := 0
 	eachInstrOf(k.fns, func(f *ssa.Function, i ssa.Instruction) {
 		if !k.isDecidingStore(i) {
@@ -635,7 +623,7 @@ func runC17T2(c *Ctx, k *c17kit) {
 				return false
 			})
 			return isNil && nn
-		}, 0)
+		}, 0) || c17holds(i.Block(), func(ft Fact) bool { set, isF := k.gzFlagFact(ft); return isF && set }, 0)
 		if !nonNil {
 			// no test needed where the writer cannot be nil: it is read from a field of a wrapper type that is assigned a
 			// writer from the pool wherever an instance is created (the pass-through case is then another dynamic type)
@@ -682,6 +670,9 @@ type c17sink func(cc *ssa.CallCommon) (buf ssa.Value, ok bool)
 
 // sinkDecided: Write through the decided-writer field.
 func (k *c17kit) sinkDecided(cc *ssa.CallCommon) (ssa.Value, bool) {
+	if k.sel {
+		return k.sinkSelected(cc)
+	}
 	if !cc.IsInvoke() || cc.Method.Name() != "Write" || !k.isWval(cc.Value) || len(cc.Args) != 1 {
 		return nil, false
 	}
@@ -722,7 +713,7 @@ func (k *c17kit) forwardResult(owner *ssa.Function, sink c17sink, v ssa.Value, i
 		ls := k.origins(buf, nil)
 		for _, l := range ls {
 			p, isP := l.v.(*ssa.Parameter)
-			if !isP || p.Parent() != owner || typeStr(p.Type()) != "[]byte" {
+			if !isP || p.Parent() != owner || c17typeStr(p.Type()) != "[]byte" {
 				return nil
 			}
 		}
